@@ -8,5 +8,6 @@ CONSTANTS
   Compressed = {FALSE, TRUE}
   HModes = {"default", "chain"}
   Kinds = {"eof", "err", "timeout"}
+CONSTRAINT Emit
 INVARIANTS InvCompleteIsWhole InvOrder InvFailStop InvNothingPastViolation InvDecode
 CHECK_DEADLOCK FALSE
